@@ -361,6 +361,23 @@ def gen_case(rng, pid, tier):
         setup['part_records'] = [[p_, r4.choice([{'cell': 'c1'}, {'cell': 'c1', 'partition': p_},
                                                  {'cell': 'c1', 'memory': '10G', 'cpu': '100%', 'disk': '10G'}])]
                                  for p_ in parts if p_]
+    r5 = random.Random(repr(rng.getstate()[1][:4]) + 'relimit')
+    if pid == 'C04' and r5.random() < 0.3:
+        # (side stream) an affinity whose instances all go away may come back declaring other (stricter) limits: the
+        # instances of one affinity still share their limits at every moment (see `app` in _apply)
+        gp_ = r5.choice(sorted(limits))
+        setup['relimit'] = [list(gp_), r5.choice([{'rack': 1}, {'server': 1}, {'rack': 1, 'server': 1}])]
+
+        def _noregroup(ol):
+            for o_ in ol:
+                if o_[0] == 'appsev' and len(o_) > 4 and o_[4] and (o_[4][0], o_[4][1]) == gp_:
+                    o_[4] = None
+                elif o_[0] == 'offline':
+                    # (instances of this affinity are only created while a master runs: the offline path writes the
+                    # manifest as generated, without looking at what the live instances declare)
+                    o_[1][:] = [x_ for x_ in o_[1] if not (x_[0] == 'app' and (x_[2], x_[3]) == gp_)]
+                    _noregroup(o_[1])
+        _noregroup(ops)
     r3 = random.Random(repr(rng.getstate()[1][:4]) + 'late-racks')
     if pid in SCHED_PIDS and r3.random() < (0.3 if pid == 'C04' else 0.1):
         # (side stream) a cell that is still being built: the rack records (and with them the servers, whose parent
@@ -2551,6 +2568,27 @@ def _apply(case, pid, run, w, op):
         man = dict(man)
         if not man.pop('noaff', False):
             man.setdefault('affinity', name.split('#')[0])
+        rl_ = case['setup'].get('relimit')
+        if rl_ and [p, kk] == rl_[0] and man.get('affinity'):
+            # instances of one affinity share their limits: a newcomer declares what the live ones declare; once the
+            # affinity had instances and none is left, the next one declares the new limits
+            live_ = []
+            for nm_ in w.store.children('/scheduled'):
+                try:
+                    m_ = json.loads(w.store.nodes['/scheduled/' + nm_].data.decode())
+                except (KeyError, ValueError, AttributeError):
+                    continue
+                if m_.get('affinity') == man['affinity']:
+                    live_.append(m_)
+            seen_ = getattr(w, 'relimit_seen', False)
+            if live_:
+                man.pop('affinity_limits', None)
+                if live_[0].get('affinity_limits'):
+                    man['affinity_limits'] = dict(live_[0]['affinity_limits'])
+            elif seen_:
+                man['affinity_limits'] = dict(rl_[1])
+                w.stats['affinity-relimited'] += 1
+            w.relimit_seen = True
         w.now += 1                      # distinct creation order
         run.op('tick %d' % w.now, None)
         w.zput('/scheduled/' + name, man)
